@@ -1,13 +1,16 @@
 (* Thash/DeBr.v — clvmr 0.17.7 serde/de_br.rs: deserialization with back-references, and
    clvm-utils tree_hash_from_bytes on top of it.  Definitions only.
 
-   Two machines with the same control flow:
+   Three machines with the same control flow:
      debr_s   on trees: the value stack is a list of trees; a back-reference path is followed in
               the stack read as the cons list (top . (next . ( ... . nil)))   [the specification]
      debr_h   on the allocator model: the value stack IS a cons list in the heap, a
               back-reference pushes the very node it points to (so the result is a DAG)
-              [clvmr's stack-as-cons-list algorithm, node_from_stream_backrefs_old; the Vec-based
-               variant used since 0.17 materialises the same list lazily]
+              [clvmr's stack-as-cons-list algorithm, node_from_stream_backrefs_old]
+     debr_v   on the allocator model: the value stack is a Vec of (value, cached list); the cons
+              list is materialised (and cached per entry) only when a path stops on the stack
+              itself [node_from_stream_backrefs + traverse_path_with_vec, the one
+              tree_hash_from_bytes uses]
    A path is the big-endian integer of the path atom: bits are consumed from the least
    significant one, 0 = first, 1 = rest, the most significant set bit is the end marker; the
    integer 0 denotes nil.  (traverse_path.rs)
@@ -157,8 +160,106 @@ Fixpoint debr_h (fuel : nat) (h : heap) (ops : list parseop) (values : nodeptr) 
       end
   end.
 
-Definition node_from_bytes_backrefs (bs : bytes) : dres (heap * nodeptr) :=
+Definition node_from_bytes_backrefs_old (bs : bytes) : dres (heap * nodeptr) :=
   debr_h (debr_fuel bs) empty_heap [PSExp] (NSmall 0) bs.
+
+(* ---------- allocator level, Vec of values with lazily cached stack lists ---------- *)
+(* one Vec element: the value and, once built, the cons list of this value and everything below *)
+Definition entry := (nodeptr * option nodeptr)%type.
+
+(* the first phase of traverse_path_with_vec.  [vs] is the stack from args[arg_index] downwards
+   (top first).  WStack j: the path ended on the stack itself, j entries below the top *)
+Inductive walk := WErr | WNode (n : nodeptr) | WStack (j : nat).
+
+Fixpoint walk_vec (h : heap) (p : positive) (vs : list entry) {struct vs} : walk :=
+  match vs with
+  | [] =>                                  (* args.is_empty(): parsing_sexp from the start, on NIL *)
+      match traverse_pos_h h p (NSmall 0) with Some n => WNode n | None => WErr end
+  | x :: below =>
+      match p with
+      | xH => WStack 0
+      | xO q =>                            (* first: continue inside the value *)
+          match traverse_pos_h h q (fst x) with Some n => WNode n | None => WErr end
+      | xI q =>                            (* rest: next stack entry, or NIL below the last one *)
+          match below with
+          | [] => match traverse_pos_h h q (NSmall 0) with Some n => WNode n | None => WErr end
+          | _ => match walk_vec h q below with WStack j => WStack (S j) | r => r end
+          end
+      end
+  end.
+
+(* the second phase: `for x in args.iter_mut().take(arg_index + 1)` from the bottom up, reusing
+   and filling the per-entry caches.  Returns the new heap, the updated entries, the list node *)
+Fixpoint materialise (h : heap) (vs : list entry) : heap * list entry * nodeptr :=
+  match vs with
+  | [] => (h, [], NSmall 0)
+  | (v, cached) :: below =>
+      let '(h1, below', tail) := materialise h below in
+      match cached with
+      | Some pr => (h1, (v, Some pr) :: below', pr)
+      | None => let '(h2, pr) := new_pair h1 v tail in (h2, (v, Some pr) :: below', pr)
+      end
+  end.
+
+Definition traverse_path_v (h : heap) (path : bytes) (vals : list entry)
+  : option (heap * list entry * nodeptr) :=
+  match be2n path with
+  | N0 => Some (h, vals, NSmall 0)
+  | Npos p =>
+      match walk_vec h p vals with
+      | WErr => None
+      | WNode n => Some (h, vals, n)
+      | WStack j =>
+          let '(h1, vs', n) := materialise h (skipn j vals) in
+          Some (h1, firstn j vals ++ vs', n)
+      end
+  end.
+
+Fixpoint debr_v (fuel : nat) (h : heap) (ops : list parseop) (vals : list entry) (bs : bytes)
+  : dres (heap * nodeptr) :=
+  match ops with
+  | [] => match vals with (v, _) :: _ => DOk (h, v) | [] => DPanic end
+  | op :: ops' =>
+      match fuel with
+      | O => DFuel
+      | S f =>
+          match op with
+          | PSExp =>
+              match bs with
+              | [] => DErr
+              | b :: rest =>
+                  if byte_eqb b xff then debr_v f h (PSExp :: PSExp :: PCons :: ops') vals rest
+                  else if byte_eqb b xfe then
+                    match parse_path rest with
+                    | None => DErr
+                    | Some (path, rest') =>
+                        match traverse_path_v h path vals with
+                        | None => DErr
+                        | Some (h1, vals1, back_reference) =>
+                            debr_v f h1 ops' ((back_reference, None) :: vals1) rest'
+                        end
+                    end
+                  else
+                    match parse_atom_bytes b rest with
+                    | None => DErr
+                    | Some (a, rest') =>
+                        let '(h1, new_atom_) := new_atom h a in
+                        debr_v f h1 ops' ((new_atom_, None) :: vals) rest'
+                    end
+              end
+          | PCons =>
+              match vals with
+              | (rgt, _) :: (lft, _) :: vs =>
+                  let '(h1, root_node) := new_pair h lft rgt in
+                  debr_v f h1 ops' ((root_node, None) :: vs) bs
+              | _ => DPanic
+              end
+          end
+      end
+  end.
+
+Definition node_from_bytes_backrefs (bs : bytes) : dres (heap * nodeptr) :=
+  debr_v (debr_fuel bs) empty_heap [PSExp] [] bs.
 
 (* ---------- tree_hash_from_bytes ---------- *)
 Inductive fb_result := FOk (hash : bytes) | FErr | FPanic | FFuel.
@@ -169,6 +270,20 @@ Section FromBytes.
   (* [fuel] is the fuel of tree_hash_cached; the deserializer's fuel is fixed by the input length *)
   Definition tree_hash_from_bytes (fuel : nat) (bs : bytes) : fb_result :=
     match node_from_bytes_backrefs bs with
+    | DOk (h, n) =>
+        match tree_hash_cached H fuel h n empty_cache with
+        | Ok (x, _) => FOk x
+        | Panic => FPanic
+        | OutOfFuel => FFuel
+        end
+    | DErr => FErr
+    | DPanic => FPanic
+    | DFuel => FFuel
+    end.
+
+  (* the same on top of the old deserializer (not in clvm-utils; used to tie debr_h by execution) *)
+  Definition tree_hash_from_bytes_old (fuel : nat) (bs : bytes) : fb_result :=
+    match node_from_bytes_backrefs_old bs with
     | DOk (h, n) =>
         match tree_hash_cached H fuel h n empty_cache with
         | Ok (x, _) => FOk x
